@@ -865,6 +865,7 @@ class RaceRec:
     def __init__(self):
         self.received = []
         self.handle = None
+        self.sub_raised = False
 
     def _cb(self, n):
         from . import det
@@ -897,6 +898,8 @@ def _apply_model_inner(m, c):
         m.cmd_terminal(["E", ["exc", c[1]]])
     elif c[0] == "completed":
         m.cmd_terminal(["C"])
+    elif c[0] == "dispose":
+        m.cmd_dispose()
     else:
         raise HarnessError(f"race emit {c}")
 
@@ -906,6 +909,8 @@ def _emit_real(subj, c):
         subj.on_next(val(c[1]))
     elif c[0] == "error":
         subj.on_error(make_error(c[1]))
+    elif c[0] == "dispose":
+        subj.dispose()
     else:
         subj.on_completed()
 
@@ -935,7 +940,7 @@ def race_allowed(kind, cfg, emits, pre, before=()):
 
 
 def det_race(case):
-    """case = {"kind", "cfg", "emits": [["next", v] | ["error", tag] | ["completed"], ...], "pre": n, "K": k,
+    """case = {"kind", "cfg", "emits": [["next", v] | ["error", tag] | ["completed"] | ["dispose"], ...], "pre": n, "K": k,
     "first": "sub" | "emit", "before": [emits made before the race]}.  kind "replay" needs cfg {"clock": "default"}.
     Thread A: subject.subscribe(recorder)  ||  thread B: the emits in order, on a subject created after patching."""
     from . import det
@@ -959,7 +964,10 @@ def det_race(case):
         rec = RaceRec()
 
         def ta():
-            rec.handle = subj.subscribe(rec)
+            try:
+                rec.handle = subj.subscribe(rec)
+            except DisposedException:
+                rec.sub_raised = True  # allowed exactly where the model routes DisposedException to on_error
 
         def tb():
             for c in emits:
@@ -975,6 +983,12 @@ def det_race(case):
         if res.exceptions:
             return "exception", f"{res.exceptions}"
         got = ctx["rec"].received
+        if ctx["rec"].sub_raised:
+            # subscribe() raised DisposedException: only legal for a subscribe placed after dispose(), with nothing delivered
+            if got or [DISPOSED] not in allowed:
+                return "subscriber-not-linearizable", f"subscribe raised DisposedException and the subscriber received {got}; allowed {allowed}"
+            got = [DISPOSED]
+            ctx["rec"].received = got
         if got not in allowed:
             return "subscriber-not-linearizable", f"racing subscriber received {got}; allowed (by subscribe position) {allowed}"
         for i, p in enumerate(ctx["pres"]):
